@@ -1,4 +1,4 @@
-import Pocket.Lemmas.EventOrder
+import Pocket.Lemmas.Ws
 /- Skipping of unknown members (`burn_key_and_value`, `burn_value`, `burn_array`, `burn_object`,
 `burn_string`, `burn_number`): every JSON value text — strings with any escapes, numbers, the three
 literals, arrays and objects nested at most 64 deep, with any whitespace — is consumed exactly,
